@@ -13,6 +13,8 @@ CLAIMED = {
          "linearity of the register update by a 65,536-case basis sweep, residue sweep, complete sweeps of 1/2/3-octet error windows (8 x 65,535), lifted by induction over message length; crcmod tied exhaustively on the linear basis; fault enumeration on the implementation"),
  "C05": ("5/C05", "For every flag combination, width pair in {1,2,4,8}^2, ID/sequence value and data-field length PduHeader.pack is proved equal to the 727.0-B-5 layout (length 4+2*idw+seqw) and PduHeader.unpack equal, on every octet string, to the standard's decoder with the documented refusals; constructor and setters accept exactly the documented ranges. Tied by exhaustive correspondence over 2^7 x 16 configurations and all 2^16 (octet0, octet3) pairs.",
          "sweeps of octets 0 and 3 + be_encode lemmas for all widths; correspondence check"),
+ "C06": ("5/C06", "For each of the seven directive kinds (EOF, Finished, ACK, Metadata, NAK, Prompt, Keep Alive), every valid parameter set and every header configuration (CRC on/off, 32/64-bit sizes, all ID widths, both modes): pack = 727.0-B-5 layout with CRC trailer iff flagged, data-field length and packet_len = packed length, unpack(pack ++ suffix) returns an equal PDU with identical parameters that re-packs identically (TLV / option / segment-request lists of ANY length by induction), oversize values make packing fail rather than truncate. 27 defects in these seven files were demonstrated and repaired.",
+         "generic decoder-prelude lemma layer over the proved header codec, list inductions with generalised decode-the-rest lemmas and fuel-adequacy lemmas, CRC residue; correspondence exhaustive over 2^5 flags x 16 width pairs x kinds and all enum members"),
  "C07": ("5/C07", "FileDataPdu.pack proved equal to header ++ optional metadata ++ offset ++ data ++ CRC with the data-field length covering all of it; construct->pack->unpack (any suffix) returns exactly the same offset, metadata and file data in an equal PDU that re-packs identically; every accepted octet string re-encodes to its own octets; metadata > 63 refused; max-segment formula exact (four defects repaired).",
          "slice/append lemmas over the proved header codec, CRC residue theorem; correspondence check"),
  "C08": ("5/C08", "For every TLV type and value, every parameter tuple of the six concrete TLVs and every (class, foreign type) pair: pack = 727.0-B-5 layout, decode(pack ++ suffix) returns the parameters, consumed/reported lengths len+2 / len+1, > 255 octets refused, foreign types refused with TlvTypeMissmatch (eight defects repaired).",
@@ -23,9 +25,14 @@ CLAIMED = {
          "case analysis of decoder guards on explicit cells (decoder = spec theorems), collected from Proofs/*.v (Props/C10.v generated and re-checked); targeted-malformed and garbage correspondence"),
  "C11": ("5/C11", "Per mutable class: after ANY sequence of documented setter calls the object equals a freshly constructed one with the final values (up to the cached CRC), hence reported length = packed length = length field, pack is idempotent, constructors return the caller's configuration unchanged (modelled as an explicit caller-config-after component). Aliasing beyond that explicit component is exercised by the adapters, not proved.",
          "invariant 'cached length = computed length' preserved by every setter, induction over operation lists; setter-history correspondence with the caller's objects compared before/after"),
+ "C12": ("5/C12", "For every packed PDU of the eight kinds in every header configuration from_raw returns that kind, equal to the original and re-packing identically; the inspectors report the packed type bit and directive code; for every buffer the factory accepts the holder's typed accessors succeed for the returned class and raise TypeError for the other seven (8x8 table).",
+         "composition of the C05/C06/C07 theorems through a head-of-layout lemma per kind, 8x8 case table; correspondence with exhaustive accessor table and directive-octet sweeps"),
  "C13": ("5/C13", "For every octet stream, every set of cut positions and every interleaving of append/parse calls the (repaired) parser returns what one parse over the whole stream returns; registered packets come back complete, once, in order with the queue holding exactly the unconsumed remainder; junk is skipped. Model proved equal to an independent suffix-walk spec.",
          "refinement to spec_stream, strong induction on the suffix, induction over operation histories; correspondence on all 2^(n-1) fragmentations of streams <= 16 octets"),
- "C14": ("5/C14", "see evidence", "integer calendar arithmetic in Coq; correspondence check"),
+ "C14": ("5/C14", "For all 65,536 x 86,400,000 (day, ms) pairs pack = 0x40 ++ be16 day ++ be32 ms and unpack inverts it, refusals characterised for every octet string; from_datetime yields the day and floor-millisecond of the instant for every datetime; __add__ equals integer arithmetic on total milliseconds, normalised, OverflowError iff day > 65535, also over histories; as_unix_seconds within 2^-21 s of the exact instant and as_datetime exact at microsecond resolution, also before 1970 (five defects repaired).",
+         "lia / Euclidean-division proofs over an integer model, 256-case P-field sweep, integer model of binary64 round-to-nearest-even and of CPython's float-to-microsecond rounding with a half-ulp bound (no real-number axioms); bit-exact correspondence"),
+ "C15": ("5/C15", "A request ID's packed, 32-bit and decoded forms are exactly the first four header octets for all 2^32 values, equal/hash-equal iff the 32 bits agree; for every subservice 1..8, step/code width in {1,2,4,8}, value, failure data and timestamp length a service-1 report's source data is request ID ++ step ID ++ failure code ++ failure data and decoding with matching widths returns the same parameters, re-packs identically and compares equal; mismatching parameter sets raise InvalidVerifParams; only 8/16/32/64-bit enumerations exist (two defects repaired).",
+         "shift/mask-to-arithmetic lemmas + lia on top of the C01 word sweeps, 8-way subservice case split; correspondence exhaustive on both request-ID words"),
  "C16": ("5/C16", "For every history of add_tc/add_tm/remove_entry/remove_completed_entries the tracker model refines the documented state machine (total map request-id -> status + transition table) with unique keys; unknown id, duplicates, isolation, failed-step stickiness, completed flag, all-received condition and monotonicity, step list, removals.",
          "case analysis per subservice, association-list invariants, induction over operation lists; correspondence on the complete 162x11 transition table"),
  "C17": ("5/C17", "USLP primary (7+n octets, n=0..7) and truncated headers pack to exactly the 732.1-B-2 layout and round-trip for all field tuples, out-of-range IDs refused; transfer frame = header ++ insert zone ++ TFDF header ++ data zone ++ OCF ++ FECF, len and updated frame-length field = packed size, unpack under matching managed parameters returns the frame for every option combination and suffix, mismatching parameters / strict prefixes raise the USLP errors (four defects repaired, one recorded).",
